@@ -62,6 +62,15 @@ static int check_now(const char *site, const char *what)
 		vf_viol("decoder-crc-length", "%s: accessor mismatch", what);
 		return 0;
 	}
+	if ((E.nsyms & 7) == 3) {
+		/* the same stream with the input delivered in pieces of 1..3 bytes */
+		int ch = 1 + (int) (E.nsyms % 3);
+		got = dec_run("-lh1-", SBUF, sl, E.elen, OBUF, 0, ch, &r);
+		if (got != E.elen || memcmp(OBUF, EBUF, E.elen)) {
+			vf_viol("decoder-input-chunking", "%s: output differs when the input callback delivers at most %d bytes per call (%zu of %zu bytes)", what, ch, got, E.elen);
+			return 0;
+		}
+	}
 	return 1;
 }
 
@@ -112,6 +121,15 @@ static int gen_symbol(int g, long i, unsigned *off)
 	case 4: return (int) ((i / 7) % 314);
 	case 5: return (int) (313 - (i % 314));
 	case 6: return (int) ((i * 37) % 314);
+	case 8: {
+		/* eight symbols used 377, 610, ..., 10946 times (Fibonacci), everything else never: the 306 unused symbols end
+		 * up 17 levels deep (an optimal code for these weights has depth 17) */
+		static const long cnt[8] = { 377, 610, 987, 1597, 2584, 4181, 6765, 10946 };
+		long acc = 0;
+		int k = 0;
+		while (k < 7 && acc + cnt[k] <= i) { acc += cnt[k]; ++k; }
+		return k * 3;
+	}
 	default:
 		if (i % 5 == 4) return 256 + (int) (i % 58);
 		return (uint8_t) text[i % (sizeof text - 1)];
@@ -193,6 +211,20 @@ int main(int argc, char **argv)
 				if (s2 >= 0) enc_symbol(ALPHA[s2], 6);
 				probe_all();
 			}
+		}
+	} else if (!strcmp(VF.space, "deep")) {
+		/* code words far beyond 16 bits: Fibonacci-shaped histories of growing length, probe of all 314 symbols after each */
+		static const long lens[] = { 377, 987, 1974, 3571, 6155, 10336, 17101, 28047 };
+		unsigned li;
+		for (li = 0; li < sizeof lens / sizeof *lens; ++li) {
+			long i;
+			int x, maxlen = 0;
+			if (!vf_case("lh1 Fibonacci-shaped history of %ld symbols then each of 314", lens[li])) continue;
+			enc_reset();
+			for (i = 0; i < lens[li]; ++i) { unsigned off; int sy = gen_symbol(8, i, &off); enc_symbol(sy, off); }
+			for (x = 0; x < LH1_NCHAR; ++x) { uint64_t hi, lo; int cl = ref_lh1_code(&TREE, x, &hi, &lo); if (cl > maxlen) maxlen = cl; }
+			printf("NOTE deep%u=history:%ld,longest-code:%d\n", li, lens[li], maxlen);
+			probe_all();
 		}
 	} else if (!strcmp(VF.space, "pos")) {
 		/* every upper distance code x low bits {0,63} x lengths {3,60}, after prefixes of 0, 1, 70 and 4095..4098 bytes */
